@@ -1831,6 +1831,8 @@ class TagNode(_ElementWrappingNode, NodeBase):
         elif isinstance(item, int):
             children_size = len(self)
             if not children_size and item == 0:
+                if isinstance(value, NodeBase):
+                    value = self._prepare_new_relative((value,), clone=False)[0]
                 self.__add_first_child(value)
             else:
                 if not 0 <= item < children_size:
